@@ -22,8 +22,9 @@ def run(rep, F, ctx):
     p_C04.lock_nest(rep, F, A)
     panics.unit(rep, F, A.cg)
     panics.arith(rep, F, A.cg)
-    # the public path helpers named by the property's anchors: every potential panic site is discharged or excused
-    panics.no_panic_helpers(rep, F, A.cg, lambda n: n.startswith('sys::fs::path::'), rule='NO-PANIC-HELPERS', floor=8)
+    # every function of the library (VFS methods of both backends, traversal engine, path / string / iterator helpers): every potential panic site is discharged or excused
+    panics.no_panic_helpers(rep, F, A.cg, lambda n: n.startswith(('sys::', '<sys::', '<T as core::', '<str as core::', '<std::', '<core::', 'core::')) and not n.startswith(('<testing', 'testing')) and not n.endswith('::assert_iter_eq'),          # (assert_iter_eq is a test oracle: it panics by design)
+                            rule='NO-PANIC-HELPERS', floor=40)
     # inventory (evidence only) of potential panic sites in public helpers outside the armed regions
     inv = []
     for n in A.cg.names():
